@@ -18,10 +18,12 @@ import (
 	"regexp"
 	"sort"
 	"strings"
+	"sync"
 	"time"
 
 	"github.com/inbucket/inbucket/v3/pkg/config"
 	"github.com/inbucket/inbucket/v3/pkg/extension"
+	"github.com/inbucket/inbucket/v3/pkg/extension/event"
 	"github.com/inbucket/inbucket/v3/pkg/extension/luahost"
 	"github.com/inbucket/inbucket/v3/pkg/message"
 	"github.com/inbucket/inbucket/v3/pkg/policy"
@@ -51,6 +53,9 @@ type smtpBehaviour struct {
 	Names   []string               `json:"names"`
 	Steps   []lineStep             `json:"steps"`
 	Timeout int                    `json:"timeout_ms"`
+	GoHooks bool                   `json:"gohooks"`  // Go listeners ahead of / behind the Lua host (first-answer rule, C17)
+	NoVisit bool                   `json:"novisit"`  // snapshot only the behaviour's own mailboxes (parallel sessions)
+	Group   string                 `json:"group"`    // behaviours with the same non-empty group share one server and run concurrently
 }
 
 type smtpInput struct {
@@ -121,7 +126,7 @@ func projectSMsg(m storage.Message) SMsg {
 	return out
 }
 
-func smtpSnapshot(s storage.Store, known []string) (boxes []SBox, errs []string) {
+func smtpSnapshot(s storage.Store, known []string, visit bool) (boxes []SBox, errs []string) {
 	seen := map[string]bool{}
 	add := func(b SBox) {
 		if len(b.Msgs) == 0 {
@@ -133,16 +138,19 @@ func smtpSnapshot(s storage.Store, known []string) (boxes []SBox, errs []string)
 			boxes = append(boxes, b)
 		}
 	}
-	err := s.VisitMailboxes(func(ms []storage.Message) bool {
-		if len(ms) > 0 {
-			b := SBox{Mb: ms[0].Mailbox()}
-			for _, m := range ms {
-				b.Msgs = append(b.Msgs, projectSMsg(m))
+	var err error
+	if visit {
+		err = s.VisitMailboxes(func(ms []storage.Message) bool {
+			if len(ms) > 0 {
+				b := SBox{Mb: ms[0].Mailbox()}
+				for _, m := range ms {
+					b.Msgs = append(b.Msgs, projectSMsg(m))
+				}
+				add(b)
 			}
-			add(b)
-		}
-		return true
-	})
+			return true
+		})
+	}
 	if err != nil {
 		errs = append(errs, "visit: "+err.Error())
 	}
@@ -269,9 +277,38 @@ func setupSMTP(b smtpBehaviour, scratch string) (*smtpEnv, error) {
 		return nil, fmt.Errorf("config.Process: %v", err)
 	}
 	e := &smtpEnv{root: root, host: extension.NewHost()}
+	goHook := func(prefix string, code int, text string, last bool) func(event.SMTPSession) *event.SMTPResponse {
+		return func(ses event.SMTPSession) *event.SMTPResponse {
+			addr := ""
+			if last && len(ses.To) > 0 {
+				addr = ses.To[len(ses.To)-1].Address
+			} else if !last && ses.From != nil {
+				addr = ses.From.Address
+			}
+			if strings.Contains(addr, prefix) {
+				return &event.SMTPResponse{Action: event.ActionDeny, ErrorCode: code, ErrorMsg: text}
+			}
+			return nil
+		}
+	}
+	if b.GoHooks {
+		e.host.Events.BeforeMailFromAccepted.AddListener("verif-first", goHook("gofirst", 521, "go first", false))
+		e.host.Events.BeforeRcptToAccepted.AddListener("verif-first", goHook("gofirst", 521, "go first", true))
+	}
 	if b.Lua != "" {
 		if _, err := luahost.NewFromReader(zerolog.Nop(), e.host, strings.NewReader(b.Lua), "verif.lua"); err != nil {
 			return nil, fmt.Errorf("lua: %v", err)
+		}
+	}
+	if b.GoHooks {
+		for _, px := range []struct {
+			p string
+			c int
+			t string
+		}{{"golast", 522, "go last"}, {"allow", 523, "must not be asked"}, {"deny", 523, "must not be asked"}} {
+			px := px
+			e.host.Events.BeforeMailFromAccepted.AddListener("verif-last-"+px.p, goHook(px.p, px.c, px.t, false))
+			e.host.Events.BeforeRcptToAccepted.AddListener("verif-last-"+px.p, goHook(px.p, px.c, px.t, true))
 		}
 	}
 	e.dir = filepath.Join(scratch, "store-"+b.ID)
@@ -297,24 +334,63 @@ func runSMTPBehaviour(w *tr.Writer, b smtpBehaviour, scratch string) {
 	if b.Store == "file" {
 		defer os.RemoveAll(e.dir)
 	}
+	runSMTPSession(w, b, e, 0)
+}
+
+// runSMTPGroup runs several behaviours as concurrent sessions of one server (C17: handlers invoked from
+// many sessions at once).  Each behaviour observes only its own mailboxes.
+func runSMTPGroup(w *tr.Writer, bs []smtpBehaviour, scratch string) {
+	e, err := setupSMTP(bs[0], scratch)
+	if err != nil {
+		w.Emit(tr.Ev{"a": "harness-error", "t": bs[0].ID, "err": err.Error()})
+		return
+	}
+	if bs[0].Store == "file" {
+		defer os.RemoveAll(e.dir)
+	}
+	var wg sync.WaitGroup
+	for i, b := range bs {
+		wg.Add(1)
+		go func(i int, b smtpBehaviour) {
+			defer wg.Done()
+			// events of one session are buffered and written as one block so that traces do not interleave
+			bw := &tr.Writer{}
+			runSMTPSessionTo(bw, w, b, e, i*100)
+		}(i, b)
+	}
+	wg.Wait()
+}
+
+func runSMTPSessionTo(buf *tr.Writer, w *tr.Writer, b smtpBehaviour, e *smtpEnv, sidBase int) {
+	evs := []tr.Ev{}
+	emit := func(ev tr.Ev) { evs = append(evs, ev) }
+	runSMTPSessionEmit(emit, func() {}, b, e, sidBase)
+	w.EmitBlock(evs)
+}
+
+func runSMTPSession(w *tr.Writer, b smtpBehaviour, e *smtpEnv, sidBase int) {
+	runSMTPSessionEmit(w.Emit, w.Flush, b, e, sidBase)
+}
+
+func runSMTPSessionEmit(emit func(tr.Ev), flush func(), b smtpBehaviour, e *smtpEnv, sidBase int) {
 	timeout := 5 * time.Second
 	if b.Timeout > 0 {
 		timeout = time.Duration(b.Timeout) * time.Millisecond
 	}
 	snap := func(ev tr.Ev) {
-		s, serr := smtpSnapshot(e.store, b.Names)
+		s, serr := smtpSnapshot(e.store, b.Names, !b.NoVisit)
 		ev["s"] = s
 		ev["serr"] = serr
 	}
 	rev := tr.Ev{"a": "reset", "t": b.ID, "cfg": b.Cfg, "store": b.Store}
 	snap(rev)
-	w.Emit(rev)
-	w.Flush()
+	emit(rev)
+	flush()
 
 	var client net.Conn
 	var br *bufio.Reader
 	var done chan struct{}
-	sid := 0
+	sid := sidBase
 	connect := func() reply {
 		sc, cc := net.Pipe()
 		client, br = cc, bufio.NewReader(cc)
@@ -336,8 +412,9 @@ func runSMTPBehaviour(w *tr.Writer, b smtpBehaviour, scratch string) {
 	cev := tr.Ev{"a": "connect", "t": b.ID}
 	put(cev, connect())
 	snap(cev)
-	w.Emit(cev)
+	emit(cev)
 	closed := false
+	lastCode := 0
 	for i, st := range b.Steps {
 		ev := tr.Ev{"a": "cmd", "t": b.ID, "i": i}
 		for k, v := range st.Abs {
@@ -367,6 +444,11 @@ func runSMTPBehaviour(w *tr.Writer, b smtpBehaviour, scratch string) {
 				ev["returned"] = false
 			}
 		default:
+			if st.Kind == "body" && lastCode != 354 {
+				// a client sends message data only after the server's 354
+				ev["a"] = "skipped"
+				break
+			}
 			if closed {
 				ev["cls"] = "closed"
 				ev["code"] = 0
@@ -386,12 +468,13 @@ func runSMTPBehaviour(w *tr.Writer, b smtpBehaviour, scratch string) {
 			case <-time.After(timeout):
 			}
 			put(ev, rp)
+			lastCode = rp.Code
 			if rp.Cls == "closed" {
 				closed = true
 			}
 		}
 		snap(ev)
-		w.Emit(ev)
+		emit(ev)
 	}
 	// end of dialogue: anything the server still wants to say, then hang up
 	end := tr.Ev{"a": "end", "t": b.ID}
@@ -410,7 +493,7 @@ func runSMTPBehaviour(w *tr.Writer, b smtpBehaviour, scratch string) {
 		end["returned"] = false
 	}
 	snap(end)
-	w.Emit(end)
+	emit(end)
 }
 
 func cmdSMTP(args []string) error {
@@ -439,8 +522,20 @@ func cmdSMTP(args []string) error {
 		return err
 	}
 	defer os.RemoveAll(scratch)
+	groups := map[string][]smtpBehaviour{}
+	order := []string{}
 	for _, b := range in.Behaviours {
-		runSMTPBehaviour(w, b, scratch)
+		if b.Group == "" {
+			runSMTPBehaviour(w, b, scratch)
+			continue
+		}
+		if _, ok := groups[b.Group]; !ok {
+			order = append(order, b.Group)
+		}
+		groups[b.Group] = append(groups[b.Group], b)
+	}
+	for _, g := range order {
+		runSMTPGroup(w, groups[g], scratch)
 	}
 	fmt.Fprintf(os.Stderr, "smtp: %d behaviours, %d events\n", len(in.Behaviours), w.N)
 	return nil
